@@ -16,7 +16,7 @@
      statement is kept in the comment above them. *)
 From Coq Require Import List ZArith Bool Arith Lia.
 From SC Require Import Base.Res Base.PyList Inst.Heap Inst.ClassTable Inst.Model Inst.Canon
-  Inst.Abs Inst.SpecHelpers Inst.RefineProofs Inst.CopyProofs.
+  Inst.Abs Inst.SpecHelpers Inst.RefineProofs Inst.CopyProofs Inst.CopyStore.
 Import ListNotations.
 Open Scope nat_scope.
 
@@ -118,9 +118,15 @@ Proof. exact update_inplace_is_iterated_setattr. Qed.
                  (layers (i) and (ii) of the plan)
      value       a proper scalar (None, bool, int, str, atom; not a sentinel)
      callbacks   no injected callback failure (fail_at = None)
-   MISSING for the full statement: the copy-on-write flag (needs "deepcopy
-   preserves abs"; proved so far for the attribute loop of flat instances:
-   CopyProofs.field_loop), invalidation cascades, collection-typed attributes
+   and, COPY-ON-WRITE (C05_refines_copy_partial): with_<a>(v) without _inplace on
+   a FLAT receiver (every attribute value a scalar or a list/dict/set of
+   scalars, sharing allowed), frozen or not, not being initialised: the result
+   is a fresh instance whose abstraction is the specification's, no
+   pre-existing cell is changed, and the copy is not left in the
+   "initializing" state (the _thawed window is closed again).
+   MISSING for the full statement: copy-on-write for nested receivers (deepcopy
+   preserves abs is proved for flat instances: CopyProofs.deepcopy_flat_abs),
+   the Err outcomes of the copy-on-write call, invalidation cascades, collection-typed attributes
    (normalisation), nested spec values / keywords / dict-as-arguments (layer
    (iii)), update_/transform_/reset_ and the top-level helpers (their no-op,
    identity and "is iterated assignment" parts are proved above in full
@@ -161,6 +167,39 @@ Proof.
   intros ct h0 l a c d k sp s roots x v Hl Hc Ha Hd Hok Hfz Hni Hfa Hty Hnc Hx Hv Hp.
   exact (setattr_scalar_refines ct h0 l a c d k sp s Hl Hc Ha Hd Hok Hfz Hni Hfa Hty Hnc roots x v Hx Hv Hp).
 Qed.
+
+Theorem C05_refines_copy_partial : forall ct h0 l a c d k sp s v r s',
+  nth_error (heap s) l = Some (OInst c d) -> lookup_cls ct c = Some k -> lookup_attr k a = Some sp ->
+  NoDup (map fst d) -> flat_fields (heap s) d ->
+  c_dnc k = false -> no_inval k -> fail_at s = None ->
+  ty_depth (a_ty sp) < FUEL -> ty_is_collection (a_ty sp) = false ->
+  assoc A_INITIALIZING d = None -> a <> A_INITIALIZING ->
+  vscalar v = true ->
+  match a_prepare sp with Some f => scalar_fn f = true | None => True end ->
+  run_helper ct l (HWith a) (mkh [v] false true VMissing false None None [] None) s = (Ok r, s') ->
+  exists l' dfin,
+    r = VRef l' /\ length (heap s) <= l' /\
+    (forall i, i < length (heap s) -> nth_error (heap s') i = nth_error (heap s) i) /\
+    spec_helper ct h0 (absv (heap s) (VRef l)) (SWith a)
+                (mkah [abs0 v] false true AMissing false None None [] None) = SOk (absv (heap s') (VRef l')) /\
+    nth_error (heap s') l' = Some (OInst c dfin) /\ assoc A_INITIALIZING dfin = None.
+Proof.
+  intros ct h0 l a c d k sp s v r s' Hl Hc Ha Hd Hflat Hdnc Hni Hfa Hty Hnc Hinit Ha0 Hv Hp H.
+  exact (with_scalar_copy_refines ct h0 l a c d k sp s Hl Hc Ha Hd Hflat Hdnc Hni Hfa Hty Hnc Hinit Ha0 v r s' Hv Hp H).
+Qed.
+
+(* copy-run vs in-place-run: deepcopy of a flat instance is abstractly the instance *)
+Theorem C05_deepcopy_preserves_abs_flat : forall ct l s c d k r s' n,
+  nth_error (heap s) l = Some (OInst c d) -> lookup_cls ct c = Some k -> c_dnc k = false ->
+  flat_fields (heap s) d ->
+  deepcopy ct (VRef l) s = (Ok r, s') ->
+  exists l' d',
+    r = VRef l' /\ length (heap s) <= l' /\
+    nth_error (heap s') l' = Some (OInst c d') /\ map fst d' = map fst d /\ flat_fields (heap s') d' /\
+    abs (S (S n)) (heap s') (VRef l') = abs (S (S n)) (heap s) (VRef l) /\
+    fail_at s' = fail_at s /\
+    (forall i, i < length (heap s) -> nth_error (heap s') i = nth_error (heap s) i).
+Proof. exact deepcopy_flat_abs. Qed.
 
 (* what an instance refers to never reaches the instance in an acyclic graph:
    the lemma that lets the theorems above hold for ARBITRARY other attribute
@@ -203,5 +242,7 @@ Print Assumptions C05_setattr_entry.
 Print Assumptions C05_update_is_iterated_with.
 Print Assumptions C05_refines_partial.
 Print Assumptions C05_setattr_refines_partial.
+Print Assumptions C05_refines_copy_partial.
+Print Assumptions C05_deepcopy_preserves_abs_flat.
 Print Assumptions C05_acyclic_fields_independent.
 Print Assumptions C05_examples.
